@@ -1,65 +1,13 @@
 /-
-Equivalence of the GENERATED function translations (`OAP/Gen/Funcs.lean`, rewritten from the Go source by `extract/funcs.go` on every
-run: control flow, buffer writes, index/slice operations and arithmetic of the Go functions, statement by statement) with the
-hand-written model functions the property theorems are about. A change of one of these Go functions changes the generated term and
-these proofs are re-checked against it; a function that leaves the translatable subset disappears from `Funcs.lean` and the proof
-no longer compiles (reported as a broken obligation, DESIGN section 4).
+v1/v2 Header.Pack and Header.UnpackBytes (go/v1/header.go, go/v2/v2_header.go) = Frame.Header.pack / Frame.Header.unpackBytes.
+Part of the function-level T2 tie: the GENERATED translations in `OAP/Gen/Funcs.lean` (rewritten from the Go source by
+`extract/funcs.go` on every run) are proved equal to the hand-written model functions the property theorems are about.
 -/
 import OAP.Gen.Funcs
-import OAP.Model.Handshake
-import OAP.Model.Metadata
 import OAP.Model.Frame
 set_option linter.unusedSimpArgs false
 namespace OAP.GenFuncs
 open OAP OAP.Gen.Fn
-
-
-def hsG (h : Handshake) : GHandshake := ⟨h.version, h.codec, h.platform, h.reserve⟩
-def hsM (g : GHandshake) : Handshake := ⟨g.version, g.codec, g.platform, g.reserve⟩
-
-theorem handshake_pack_gen (h : Handshake) : protocol_Handshake_Pack (hsG h) = .ok (Handshake.pack h) := by
-  rfl
-
-theorem handshake_unpack_gen (g0 : GHandshake) (data : Bytes) :
-    (protocol_Handshake_Unpack g0 data).map hsM = Handshake.unpack data := by
-  unfold protocol_Handshake_Unpack Handshake.unpack
-  match data with
-  | [] => rfl
-  | [_] => rfl
-  | [b0, b1] => rfl
-  | _ :: _ :: _ :: _ => simp [Res.map]
-
-theorem marshalString_gen (s : Bytes) :
-    protocol_marshalString s = .ok (match Metadata.marshalString s with | some d => (d, false) | none => ([], true)) := by
-  unfold protocol_marshalString Metadata.marshalString
-  simp only [Gen.protocol_max7BitLength, Gen.protocol_max15BitLength, Gen.mdLenFirst, Gen.mdLenSecond]
-  by_cases h1 : s.length ≤ 127
-  · simp [h1]
-  · by_cases h2 : s.length ≤ 32767 <;> simp [h1, h2]
-
-
-
-theorem mask128 (b : UInt8) : b &&& 128 = 0 ∨ b &&& 128 = 128 := by
-  have : ∀ x : Fin 256, (UInt8.ofNat x.val) &&& 128 = 0 ∨ (UInt8.ofNat x.val) &&& 128 = 128 := by decide +kernel
-  have h := this ⟨b.toNat, b.toNat_lt⟩
-  simpa using h
-
-theorem unmarshalStringLength_gen (data : Bytes) :
-    protocol_unmarshalStringLength data = Metadata.unmarshalStringLength data := by
-  unfold protocol_unmarshalStringLength Metadata.unmarshalStringLength
-  match data with
-  | [] => rfl
-  | [b0] =>
-    simp only [Metadata.len7, Metadata.len15, Gen.protocol_length7Bit, Gen.protocol_length15Bit, Gen.mdBitSize, Gen.mdLen7]
-    rcases mask128 b0 with h | h <;> simp [Bytes.idx, h, Res.bind]
-  | b0 :: b1 :: rest =>
-    simp only [Metadata.len7, Metadata.len15, Gen.protocol_length7Bit, Gen.protocol_length15Bit, Gen.mdBitSize, Gen.mdLen7,
-      Gen.mdLen15, Gen.mdLen15First, Gen.mdLen15Second, Gen.protocol_max7BitLength]
-    rcases mask128 b0 with h | h
-    · simp [Bytes.idx, h, Res.bind]
-    · simp [Bytes.idx, h, Res.bind]
-      by_cases hc : (b0.toNat &&& 127) * 256 + b1.toNat ≤ 127 <;> simp [hc]
-
 
 def v1G (h : Header) : V1Header :=
   { requestId := h.requestId, bodyLength := h.bodyLength, timeout := h.timeout, type := h.type, verify := h.verify, gzip := h.gzip,
